@@ -14,7 +14,9 @@ pub mod c11;
 pub mod c13;
 pub mod c14;
 pub mod c15;
+pub mod c16;
 pub mod c18;
+pub mod c19;
 
 pub fn property(id: &str) -> Option<PropertyDef> {
     match id {
@@ -32,7 +34,9 @@ pub fn property(id: &str) -> Option<PropertyDef> {
         "C13" => Some(c13::def()),
         "C14" => Some(c14::def()),
         "C15" => Some(c15::def()),
+        "C16" => Some(c16::def()),
         "C18" => Some(c18::def()),
+        "C19" => Some(c19::def()),
         _ => None,
     }
 }
